@@ -460,6 +460,9 @@ func okOrigins(sa *statusAn, c *Ctx, v ssa.Value, b *ssa.BasicBlock, depth int, 
 	case *ssa.Phi:
 		var out []string
 		for i, e := range x.Edges {
+			if ec, ok := sa.edgeClass(e, x.Block().Preds[i], x.Block()); ok && ec == SNonOK {
+				continue
+			}
 			out = append(out, okOrigins(sa, c, e, x.Block().Preds[i], depth+1, seen)...)
 		}
 		return out
